@@ -464,6 +464,8 @@ def read_member(text: str, platform: str, strict: bool = False):
         raise RefError("member expected")
     if tok[0] == "host" and len(tok) == 2:
         return seq, mk_pair(ip2int(tok[1]), 0)
+    if tok == ["any"] and platform == "nxos":
+        return seq, mk_pair(0, ALL1)
     if tok[0] == "group-object" and len(tok) == 2:
         if strict and platform != "ios":
             raise RefError("invalid-on-nxos: group-object")
